@@ -119,6 +119,9 @@ def main(run):
                       f'(line {write_blocks[wb][1]}, {write_blocks[wb][0].rsplit("::", 1)[-1]}): the path disambiguation is decided in a context that is not the final one')
     if not write_blocks or not ctx_blocks:
         run.violation('order|floor', f'{P.where(b)} resolve: no path-writing or no context-changing call on self found')
+    # (d) RFC 3986 5.2.2 case analysis: which of the three treatments of the path (keep the base path / normalise the reference's own path /
+    #     merge with the base path) is applied, as a function of the reference — decided on the guards of every CFG path
+    case_analysis(run, P, b, T, succ)
     # into_resolved: resolve then unchecked re-wrap of the same buffer
     ib = P.body('common::reference::RiRefBufImpl::into_resolved')
     if ib is not None:
@@ -142,6 +145,180 @@ def main(run):
         'exhaustive': True,
     }, assumptions=['C05/C09: the frame-preserving mutators leave the scheme untouched', 'C13: a reference with a scheme is a valid URI/IRI',
                     'that the target is the RFC 3986 section 5.2 target is NOT decided'])
+
+
+def case_analysis(run, P, b, T, succ):
+    from .. import lang
+    from ..aut import NFA, determinize, compare, intersect, difference, is_empty
+
+    def atom_of(t):
+        """(name, about) of a guard term; None when it is not a test of the reference"""
+        neg = False
+        while t[0] == 'unop' and t[1] == 'Not':
+            t, neg = t[2], not neg
+        if t[0] != 'call':
+            return None
+        nm = t[1]
+        a = t[2][0] if t[2] else None
+        if nm.endswith('Option::<T>::is_some') and a and a[0] == 'field' and a[1][0] == 'call' and a[1][1] == 'common::parse::reference_parts':
+            return ('S' if a[2] == 0 else 'A' if a[2] == 1 else None, neg)
+        if nm.startswith('common::path::PathImpl::is_') and a and a[0] == 'call' and a[1].endswith('RiRefImpl::path') and a[2][0][:2] == ('arg', 1):
+            return (nm.rsplit('::', 1)[-1], neg)
+        # any other test that looks at the reference's PATH is unknown to the case analysis (fail closed); tests of its query / fragment or of
+        # the base only select sub-cases and put no constraint on the path
+        if any(isinstance(x, tuple) and x and x[0] == 'call' and x[1].endswith('RiRefImpl::path') and x[2] and x[2][0][:2] == ('arg', 1) for x in terms.walk(t)):
+            return ('?' + nm, neg)
+        return None
+    # languages of the path atoms over byte strings (a path has neither '?' nor '#')
+    n = NFA()
+    q = n.new()
+    for lo, hi in ((0, 0x22), (0x24, 0x3e), (0x40, 0xff)):
+        n.add(q, lo, hi, q)
+    PATH = determinize(n, q, [q], 255).minimize()
+    slash = intersect(lang.predicate_dfa('starts-with-slash', False), PATH)
+    empty = lang.predicate_dfa('is-empty', False)
+    n2 = NFA()
+    a0, a1 = n2.new(), n2.new()
+    n2.add(a0, 0x2f, 0x2f, a1)
+    emp_or_root = determinize(n2, a0, [a0, a1], 255).minimize()
+    ATOM = {'is_absolute': slash, 'is_relative': difference(PATH, slash), 'is_empty': emp_or_root}
+    acts = {}
+    npaths = 0
+
+    def run_block(bb, env):
+        """effect of the statements and of a call terminator of block bb on the bool environment (path-sensitive: `a && b` hoisted into a
+        local is a small diamond that assigns constants)"""
+        env = dict(env)
+        bl = b['blocks'][bb]
+        for st in bl['stmts']:
+            if st['k'] != 'assign' or st['place']['proj']:
+                continue
+            l = st['place']['local']
+            rv = st['rv']
+            v = None
+            if rv['k'] == 'use':
+                o = rv['op']
+                if o['k'] == 'const' and o.get('val') is not None:
+                    v = ('const', o['val'])
+                elif o['k'] in ('copy', 'move') and not o['place']['proj']:
+                    v = env.get(o['place']['local'])
+            elif rv['k'] == 'unop' and rv['op'] == 'Not' and rv['a']['k'] in ('copy', 'move') and not rv['a']['place']['proj']:
+                x = env.get(rv['a']['place']['local'])
+                if x and x[0] == 'const':
+                    v = ('const', 1 - x[1])
+                elif x and x[0] == 'atom':
+                    v = ('atom', x[1], not x[2])
+            if v is None:
+                env.pop(l, None)
+            else:
+                env[l] = v
+        t = bl['term']
+        if t['k'] == 'call' and not t['dest']['proj']:
+            at = atom_of(('call', mir.callee(t) or '', tuple(T.operand(x) for x in t['args']), 0))
+            if at and at[0]:
+                env[t['dest']['local']] = ('atom', at[0], at[1])
+            else:
+                env.pop(t['dest']['local'], None)
+        return env
+    stack = [(0, (0,), [], {})]
+    while stack:
+        bb, path, asm, env = stack.pop()
+        env = run_block(bb, env)
+        bl = b['blocks'][bb]
+        t = bl['term']
+        if t['k'] == 'return':
+            npaths += 1
+            # the treatment of the path on this CFG path
+            kinds = set()
+            for bi in path:
+                tt = b['blocks'][bi]['term']
+                if tt['k'] != 'call':
+                    continue
+                c = mir.callee(tt) or ''
+                a_self = T.operand(tt['args'][0]) if tt['args'] else None
+                on_self = a_self is not None and a_self[:2] == ('arg', 1)
+                if c.endswith('::set_path') and on_self:
+                    src = T.operand(tt['args'][1])
+                    kinds.add('copy' if (src[0] == 'call' and src[1].endswith('RiRefImpl::path') and src[2][0][:2] == ('arg', 2)) else 'merge')
+                elif c.endswith('::normalize') and 'own' not in kinds:
+                    recv = T.operand(tt['args'][0])
+                    if recv[0] == 'call' and recv[1].endswith('::path_mut') and recv[2][0][:2] == ('arg', 1):
+                        kinds.add('own')
+            kind = 'copy' if 'copy' in kinds else 'merge' if 'merge' in kinds else 'own' if 'own' in kinds else 'none'
+            S = next((v for (a, v) in asm if a == 'S'), None)
+            A = next((v for (a, v) in asm if a == 'A'), None)
+            unknown = [a for (a, v) in asm if a.startswith('?')]
+            if unknown:
+                run.violation(f'cases|unknown|{unknown[0][1:60]}', f'{P.where(b)} resolve branches on {unknown[0][1:]}, a test of the reference that the case analysis does not know')
+                continue
+            L = PATH
+            for (a, v) in asm:
+                if a in ATOM:
+                    L = intersect(L, ATOM[a]) if v else difference(L, ATOM[a])
+            if is_empty(L) is None:
+                continue          # contradictory guards: not a feasible path
+            key = ('scheme' if S else 'authority' if A else 'neither') if S is not None else 'neither'
+            acts.setdefault((key, kind), []).append(L)
+            continue
+        if t['k'] == 'switch':
+            v = None
+            if t['op']['k'] in ('copy', 'move') and not t['op']['place']['proj']:
+                v = env.get(t['op']['place']['local'])
+            elif t['op']['k'] == 'const':
+                v = ('const', t['op'].get('val'))
+            outs = [(val, tg) for val, tg in t['targets']] + [(None, t['otherwise'])]
+            vals = [val for val, _ in t['targets']]
+            for val, tg in outs:
+                if tg in path:
+                    continue
+                truth = (val != 0) if val is not None else (0 in vals)
+                if v is not None and v[0] == 'const':
+                    taken = (v[1] == val) if val is not None else (v[1] not in vals)
+                    if not taken:
+                        continue
+                    stack.append((tg, path + (tg,), asm, env))
+                elif v is not None and v[0] == 'atom':
+                    # the same test may be looked at twice on a path: contradictory outcomes are infeasible
+                    tv = truth != v[2]
+                    prev = [x for (a, x) in asm if a == v[1]]
+                    if prev and prev[0] != tv:
+                        continue
+                    stack.append((tg, path + (tg,), asm + [(v[1], tv)], env))
+                else:
+                    stack.append((tg, path + (tg,), asm, env))
+            continue
+        for s2 in succ[bb]:
+            if s2 not in path and len(path) < 400:
+                stack.append((s2, path + (s2,), asm, env))
+    run.count('case_paths', npaths)
+
+    def union(ls):
+        if not ls:
+            return difference(PATH, PATH)
+        n3 = NFA()
+        st0 = n3.new()
+        fins = []
+        from ..aut import embed
+        for d in ls:
+            s0, fs = embed(n3, d)
+            n3.add_eps(st0, s0)
+            fins += fs
+        return determinize(n3, st0, fins, 255).minimize()
+    want = {'copy': intersect(empty, PATH), 'own': slash, 'merge': difference(difference(PATH, slash), empty)}
+    for key in ('scheme', 'authority'):
+        bad = [k for (kk, k) in acts if kk == key and k != 'own']
+        if bad or (key, 'own') not in acts:
+            run.violation(f'cases|{key}', f'{P.where(b)} resolve: a reference with a {key} must keep its own (normalised) path (RFC 3986 5.2.2); found treatment {bad or "none"}')
+    for kind in ('copy', 'own', 'merge'):
+        got = union(acts.get(('neither', kind), []))
+        r = compare(got, want[kind])
+        what = {'copy': 'the base path is kept', 'own': "the reference's own path is normalised", 'merge': 'the paths are merged'}[kind]
+        when = {'copy': 'exactly when the reference path is empty', 'own': 'exactly when the reference path starts with "/"', 'merge': 'exactly when the reference path is non-empty and does not start with "/"'}[kind]
+        if r is not None:
+            run.violation(f'cases|neither|{kind}', f'{P.where(b)} resolve (reference without scheme and authority): {what} for the reference path {bytes(r[0])!r} — RFC 3986 5.2.2 does so {when}')
+    for (kk, k) in acts:
+        if k == 'none':
+            run.violation(f'cases|{kk}|none', f'{P.where(b)} resolve has a path (reference with {kk}) on which the path is neither kept, normalised nor merged')
 
 
 def _context_after_write(b, succ, ctx_blocks, write_blocks):
